@@ -135,6 +135,8 @@ def run(ctx: core.Ctx) -> None:
         for span in (2, 4):
             run_slice(ctx, f'K-ops-span{span}', slice_='ops', kinds=kinds3, budget=2, maxobjs=4, shardat=1, extras=False, span=span,
                       expect_ops=C09_OPS)
+    run_slice(ctx, 'K-near', slice_='near', kinds=kinds3, budget=4, maxobjs=4, shardat=0, extras=False, nshards=2,
+              expect_ops=['ToggleStrict', 'SetAttr', 'AddVariable'])
     run_slice(ctx, 'sim-25', slice_='sim', kinds=kinds3, budget=25, maxobjs=4, shardat=0, extras=False, expect_ops=C09_OPS,
               simulate=240 if quick else 3200)
     sample_histories(ctx, slice_='hist', kinds=['hist2'], budget=3, extras=False)
